@@ -203,7 +203,36 @@ func ruleU11(p *Prog) *RuleResult {
 				cn := fmt.Sprintf("%s|%s#%d", fname(f), p.exprShape(bo.Pos()), n)
 				if ok, why := positive(bo.X, b, false, map[ssa.Value]bool{}); ok {
 					res.ok(cn, p.ipos(bo), "the operand is positive here: "+why)
-				} else if ok, why := positiveAtCallers(f, bo.X, 0); ok {
+				} else if ok, why := func() (bool, string) {
+					// the parameters behind the operand (itself, or through the phi of a loop that starts at it)
+					var prms []ssa.Value
+					seen := map[ssa.Value]bool{}
+					var leaves func(v ssa.Value)
+					leaves = func(v ssa.Value) {
+						if seen[v] {
+							return
+						}
+						seen[v] = true
+						if an.params[v] {
+							prms = append(prms, v)
+						}
+						if ph, ok := v.(*ssa.Phi); ok {
+							for _, e := range ph.Edges {
+								leaves(e)
+							}
+						}
+					}
+					leaves(bo.X)
+					why := ""
+					for _, q := range prms {
+						ok, w := positiveAtCallers(f, q, 0)
+						if !ok {
+							return false, ""
+						}
+						why = w
+					}
+					return len(prms) > 0, why
+				}(); ok {
 					res.ok(cn, p.ipos(bo), why)
 				} else {
 					res.bad(cn, p.ipos(bo), "the unsigned operand comes from the caller and nothing on the way here excludes zero: end-1 wraps to the top of the universe")
